@@ -31,7 +31,7 @@ CMP = ("x", "fun", "jac", "nfev", "njev", "nit", "message", "sk", "yk")
 
 def floors(tier):
     return {"identity_pairs_compared": 60, "switch_runs": 250, "post_switch_states_checked": 800, "switches_dropping_pairs": 40,
-            "switches_newest_pair_rejected": 5, "restart_equivalence_checked": 150, "__nontrivial__": 40}
+            "switches_newest_pair_rejected": 5, "restart_equivalence_checked": 250, "initial_call_rewrites_on_restart": 100, "__nontrivial__": 40}
 
 
 def cases(tier, seed):
@@ -53,6 +53,14 @@ def cases(tier, seed):
                "switch_at": int(rng.integers(0, 7)), "variant": gen.pick(rng, ["rescale", "reg", "indefinite", "indefinite", "indefinite"]),
                "vseed": int(rng.integers(0, 2**31 - 1)), "strength": float(rng.uniform(0.3, 3.0)),
                "eps_SY": float(gen.pick(rng, [2.2e-16, 2.2e-16, 1e-3, 1e-2, 0.1])),
+               "rewrite": gen.pick(rng, ["new_deque", "new_deque", "same_deque", "same_arrays"])}
+    nr = 200 if tier == "quick" else 8000
+    for i in range(nr):
+        ps = gen.rand_spec(rng, ("qp", "qp_quartic"), nmax=8, nmin=2, boxes=("none", "mixed", "boxed", "lower"),
+                           starts=("interior", "face", "vertex"), condmax=1e3)
+        yield {"kind": "switch_on_restart", "problem": ps, "maxcor": int(rng.integers(1, 7)), "stop_at": int(rng.integers(1, 8)),
+               "variant": gen.pick(rng, ["rescale", "reg", "indefinite", "indefinite"]), "vseed": int(rng.integers(0, 2**31 - 1)),
+               "strength": float(rng.uniform(0.3, 3.0)), "eps_SY": float(gen.pick(rng, [2.2e-16, 2.2e-16, 1e-3, 1e-2, 0.1])),
                "rewrite": gen.pick(rng, ["new_deque", "new_deque", "same_deque", "same_arrays"])}
 
 
@@ -317,12 +325,142 @@ def run_switch(spec, out):
     out.sample = dict(spec=spec, variant=desc, callbacks=len(tr.cb), pairs_at_switch=info["nX_at_switch"])
 
 
+def run_switch_on_restart(spec, out):
+    """The documented use of checkpoints together with update_fun_def: a run on f_A is stopped, the objective changes to f_B, and the
+    run is continued from the checkpoint with an update function that rewrites the restored gradient history at its initial call.
+    The continuation must be the one of a restart on f_B from a checkpoint that holds the rewritten history."""
+    from scipy.optimize import LbfgsInvHessProduct
+
+    P0 = gen.make_problem(spec["problem"])
+    fB, gB, desc = make_fB(P0, spec)
+    eps_sy = float(spec.get("eps_SY", 2.2e-16))
+    cfg = dict(jac="callable", maxcor=spec["maxcor"], maxls=20, ftol=0.0, gtol=1e-10, maxfun=10000, eps_SY=eps_sy)
+    first = probes.run_min(P0, dict(cfg, maxiter=spec["stop_at"]))
+    name = f"switch on restart {P0.spec['family']} n={P0.n} maxcor={spec['maxcor']} eps_SY={eps_sy:g} {desc} after iteration {spec['stop_at']} ({spec.get('rewrite', 'new_deque')})"
+    tags = dict(kind="switch_on_restart", variant=spec["variant"])
+    out.count("switch_on_restart_runs")
+    if first.exc is not None or first.result.nit != spec["stop_at"] or first.result.message != MESSAGES["ITER"]:
+        out.count("switch_never_reached")
+        return
+    ck = first.result
+    m = ck.hess_inv.sk.shape[0]
+    if m == 0:
+        out.count("switch_never_reached")
+        return
+    S = Switched(P0, fB, gB)
+    S.on = True
+    info = {"calls": 0, "nX": None}
+
+    def ufd(x, f0, f0_old, grad, X, G):
+        j = info["calls"]
+        info["calls"] += 1
+        if j == 0:
+            info["nX"] = len(X)
+            info["X"] = [np.array(p, copy=True) for p in X]
+            Gn = rewritten_history(spec, X, G, gB)
+            xo = np.array(X[-1], copy=True) if len(X) else np.array(x, copy=True)
+            return fB(np.array(x, copy=True)), fB(xo), gB(np.array(x, copy=True)), Gn
+        return f0, f0_old, grad, G
+
+    live = probes.run_min(S, dict(cfg, maxiter=spec["stop_at"] + 1, cb="never"), hooks={"ufd": ufd}, checkpoint=ck, x0=np.array(ck.x, dtype=float, copy=True))
+    if live.exc is not None:
+        out.violate("switch_run_raised", f"{name}: {live.exc!r}", exc=type(live.exc).__name__, **tags)
+        return
+    if info["nX"] is None:
+        out.count("switch_never_reached")
+        return
+    out.count("initial_call_rewrites_on_restart")
+    # the reference: a checkpoint holding the rewritten history (the points the update function was shown, gradients of f_B there),
+    # filtered by the curvature condition exactly as the statement demands, restarted on f_B without update function
+    Xs = info["X"] + [np.array(ck.x, dtype=float, copy=True)]  # the update function is shown the past points; the current one comes with it
+    GBs = [gB(p.copy()) for p in Xs]
+    keepX, keepG = [Xs[-1]], [GBs[-1]]
+    for k in range(len(Xs) - 2, -1, -1):
+        sv, yv = keepX[0] - Xs[k], keepG[0] - GBs[k]
+        sy, yy = float(sv @ yv), float(yv @ yv)
+        if abs(sy - eps_sy * yy) <= 1e-10 * float(np.linalg.norm(sv) * np.linalg.norm(yv)):
+            out.count("skipped_degenerate_curvature")
+            return
+        if sy > eps_sy * yy:
+            keepX.insert(0, Xs[k])
+            keepG.insert(0, GBs[k])
+    if len(keepX) < len(Xs):
+        out.count("switches_dropping_pairs")
+    newest_pair_rejected = len(Xs) >= 2 and not np.array_equal(keepX[-2] if len(keepX) >= 2 else None, Xs[-2])
+    if newest_pair_rejected:
+        out.count("switches_newest_pair_rejected")
+    ckB = probes.deep(ck)
+    skB = np.array([keepX[i + 1] - keepX[i] for i in range(len(keepX) - 1)]).reshape(len(keepX) - 1, P0.n)
+    ykB = np.array([keepG[i + 1] - keepG[i] for i in range(len(keepG) - 1)]).reshape(len(keepG) - 1, P0.n)
+    ckB["hess_inv"] = LbfgsInvHessProduct(skB, ykB)
+    ckB["jac"] = gB(np.array(ck.x, dtype=float, copy=True))
+    ckB["fun"] = fB(np.array(ck.x, dtype=float, copy=True))
+    ref = probes.run_min(S, dict(cfg, maxiter=spec["stop_at"] + 1), checkpoint=ckB, x0=np.array(ck.x, dtype=float, copy=True))
+    if ref.exc is not None:
+        out.count("reference_restart_raised")
+        return
+    out.count("restart_equivalence_checked")
+    e = float(np.max(np.abs(live.snap["x"] - ref.snap["x"])) / max(1.0, float(np.max(np.abs(ref.snap["x"])))))
+    out.maxi("max_restart_equivalence_relerr", e)
+    if not (e <= XT):
+        if skB.shape[0] > P0.n:
+            out.count("skipped_rank_deficient_memory")
+        elif probes.grazes_bound(ck.x, P0.lb, P0.ub) or probes.rounding_sensitive(
+                lambda c2: probes.run_min(S, dict(cfg, maxiter=spec["stop_at"] + 1), checkpoint=c2, x0=np.array(ck.x, dtype=float, copy=True)),
+                ckB, ref.snap["x"], XT, seed=spec.get("vseed", 0), trials=6):
+            out.count("skipped_rounding_sensitive_step")
+        elif newest_pair_rejected:
+            # same mechanism as the open finding of the in-loop rewrite: the pair (last restored point -> current x) fails the curvature
+            # test under f_B and the package drops the current x from the history instead of anchoring the filtered history at it
+            out.violate("newest_point_not_retained", f"{name}: the pair formed by the last restored point and the current x fails the curvature test under f_B; "
+                        f"the continuation differs by {e:.3e} from a restart on f_B whose history is anchored at the current x: the newest point was dropped", **tags)
+            return
+        else:
+            out.violate("continuation_differs_from_restart_on_new_objective", f"{name}: the run continued from the checkpoint with an update function that rewrote the "
+                        f"{info['nX']} restored gradients at its initial call produces iterate {spec['stop_at'] + 1} differing by {e:.3e} (relative) from a restart on "
+                        f"f_B from a checkpoint holding the rewritten history: the rewritten history was not the one used", **tags)
+            return
+    # pairs reported after the restart: differences of grad f_B (the points are rebuilt from the state's x and pairs, which presumes that
+    # the pairs end at x: not judged when the newest pair was rejected, see the finding above)
+    visited = [np.array(ck.x, dtype=float, copy=True)]
+    for i, rec in enumerate([] if newest_pair_rejected else live.cb):
+        sk, yk = rec["snap"]["sk"], rec["snap"]["yk"]
+        out.count("post_switch_states_checked")
+        visited.append(np.array(rec["snap"]["x"], dtype=float))
+        worst = None
+        # the pairs end at the newest retained iterate: the state's x, or an earlier visited one when the ordinary update of this
+        # iteration was rejected
+        for anchor in visited[::-1]:
+            pts = [anchor]
+            for sv in sk[::-1]:
+                pts.insert(0, pts[0] - sv)
+            dev = 0.0
+            for j2 in range(sk.shape[0]):
+                ga, gb = gB(pts[j2 + 1].copy()), gB(pts[j2].copy())
+                sc = float(np.max(np.abs(ga)) + np.max(np.abs(gb)) + 1e-300)
+                dev = max(dev, float(np.max(np.abs(yk[j2] - (ga - gb)))) / sc)
+            worst = dev if worst is None else min(worst, dev)
+            if dev <= 1e-8:
+                break
+        if worst is not None and not worst <= 1e-8:
+            out.violate("pairs_not_differences_of_rewritten_gradients", f"{name}: callback state #{i}: the pairs are not differences of grad f_B along a chain "
+                        f"ending at a visited iterate (smallest relative deviation {worst:.3e})", **tags)
+            return
+    out.nontrivial = len(keepX) < len(Xs)
+    out.sample = dict(spec=spec, variant=desc, pairs_in_checkpoint=m, pairs_kept=len(keepX) - 1)
+
+
 def run(spec):
     out = Outcome()
     if spec["kind"] == "identity":
         run_identity(spec, out)
         out.key = f"identity/{spec['problem']['family']}/{spec['problem']['seed']}"
         out.sample = dict(spec=spec)
+    elif spec["kind"] == "switch_on_restart":
+        run_switch_on_restart(spec, out)
+        out.key = f"switch_on_restart/{spec['problem']['seed']}/{spec['vseed']}/{spec['stop_at']}"
+        if out.sample is None:
+            out.sample = dict(spec=spec)
     else:
         run_switch(spec, out)
         out.key = f"switch/{spec['problem']['seed']}/{spec['vseed']}/{spec['switch_at']}"
